@@ -70,7 +70,6 @@ PROPS = {
         "timeout": 3000,
     },
     "C19": {
-        "claimed": False,
         "lean_props": ["ZarrsModel.Props.C19"],
         "harness": "c19",
         "rule": "every enumerated public operation (array open / metadata_opt / store_metadata / builder rebuild / to_v3 / CodecChain::from_metadata / "
